@@ -7,10 +7,12 @@ TECH = 'contract-based deductive verification: Verus (Z3) on functions extracted
 
 CLAIMED = {
  'C20': dict(
-   text='Unbounded proof (Verus/Z3) over the real bodies of the union-find implementation: find returns the class representative and '
-        'changes no class, unite merges exactly the two classes, for every state and every argument.',
-   note='Trusted: Verus+Z3, vstd specs of Vec/HashMap, the UnsafeCell wrappers Partition/IntPartition (one-line delegations, unsafe), '
-        'termination (not claimed), rustc ownership semantics for clone independence.',
+   text='Unbounded proof (Verus/Z3) over the real bodies of both union-find implementations (IntPartitionImpl, and PartitionImpl<T> at T = usize): find returns '
+        'the class representative, which is a fixed member of its class, and changes no class; unite merges exactly the two classes and leaves every other '
+        'representative alone; classes() of both wrappers returns exactly the queried elements grouped by representative, in first-occurrence order; '
+        'a history lemma lifts this to: after ANY operation sequence, same representative <=> connected by the unions applied.',
+   note='Trusted: Verus+Z3, vstd specs of Vec/HashMap; the UnsafeCell wrappers Partition/IntPartition (one-line unsafe delegations, emitted external_body with the '
+        'contract of the wrapped method and pinned to their text); termination (not claimed); Rust ownership for clone independence; T = usize only.',
    ref='5 C20', technique=TECH),
  'C10': dict(
    text='Unbounded proof (Verus/Z3) over the real bodies of src/fpgroups/free_words.rs: the reduced-word type invariant is re-established by every '
